@@ -2,7 +2,7 @@
    Statements over the store machine Store/Model.v, for EVERY schema that passes the boolean
    well-formedness check, every fuel and every history of transactions. *)
 From Coq Require Import List NArith Bool.
-From Storage Require Import Base.Bytes Store.Model Store.UniqueProofs Store.WfSchema.
+From Storage Require Import Base.Bytes Store.Model Store.UniqueProofs Store.WfSchema Store.SetIdxProofs Store.WfSetIdx Store.UniqueRejectProofs.
 Import ListNotations.
 
 (* After any history of committed / rolled-back transactions (creates, full and field-restricted
@@ -43,3 +43,145 @@ Proof.
   exact (run_tx_inv sch s f H1 H2 H3 H4 H5 fuel st t).
 Qed.
 Print Assumptions unique_index_step.
+
+(* ---------------------------------------------------------------- set indexes *)
+(* After any history, the set index of root store s on set field f lists id i under key v exactly
+   when i is a present entity whose set f currently contains v: no entries for deleted entities,
+   no stale values, no missing entries.  [wf_setidx_b]: s is a root store, store names are unique,
+   parents are roots, among the stores with root s only s carries the set index on f (once), and f is
+   neither the back-reference set of an fk index targeting (a store with root) s nor a link field of it. *)
+Theorem set_index_mirrors : forall sch s f fuel (txs : list tx),
+  wf_setidx_b sch s f = true ->
+  let st := run_txs sch fuel st_empty txs in
+  forall v i, In i (match al_get v (sidx st s f) with Some l => l | None => [] end) <->
+              (present sch st s i = true /\ In v (get_set sch st s i f)).
+Proof.
+  intros sch s f fuel txs Hwf. destruct (wf_setidx_b_sound sch s f Hwf) as [H1 [H2 [H3 [H4 [H5 [H6 H7]]]]]].
+  exact (set_index_mirrors_lemma sch s f H1 H2 H3 H4 H5 H6 H7 fuel txs).
+Qed.
+Print Assumptions set_index_mirrors.
+
+(* no empty index keys are left behind: every key present in the index holds a non-empty id list *)
+Theorem no_empty_index_keys : forall sch s f fuel (txs : list tx),
+  wf_setidx_b sch s f = true ->
+  let st := run_txs sch fuel st_empty txs in
+  forall v l, al_get v (sidx st s f) = Some l -> l <> [].
+Proof.
+  intros sch s f fuel txs Hwf. destruct (wf_setidx_b_sound sch s f Hwf) as [H1 [H2 [H3 [H4 [H5 [H6 H7]]]]]].
+  exact (no_empty_index_keys_lemma sch s f H1 H2 H3 H4 H5 H6 H7 fuel txs).
+Qed.
+Print Assumptions no_empty_index_keys.
+
+(* the set-index invariant (mirror + no empty keys) is preserved by every single transaction from
+   ANY state satisfying it *)
+Theorem set_index_step : forall sch s f fuel st (t : tx),
+  wf_setidx_b sch s f = true ->
+  SInv sch s f st -> SInv sch s f (match run_tx sch fuel st t with (_, _, st', _) => st' end).
+Proof.
+  intros sch s f fuel st t Hwf. destruct (wf_setidx_b_sound sch s f Hwf) as [H1 [H2 [H3 [H4 [H5 [H6 H7]]]]]].
+  exact (run_tx_sinv sch s f H1 H2 H3 H4 H5 H6 H7 fuel st t).
+Qed.
+Print Assumptions set_index_step.
+
+(* ---------------------------------------------------------------- uniqueness is enforced *)
+(* Vocabulary (Store/UniqueRejectProofs.v):
+   [dup_at sch s f st i v]   : v is non-empty and some present entity j <> i of s holds v in field f;
+   [new_f sch s f cr sys fv ch e] : the bytes PersistEntity leaves in field f of the root entity when it
+       persists the field values fv under field checker ch over entity e ([new_f_is_supplied_value]: it is
+       v whenever f is a declared field allowed by the checker and the entity supplies Some v);
+   [before_unique f ks]      : the constraints registered before the unique index on f;
+   [upd_store sch st s0 i]   : the store BaseStore.Update really runs in (a root store hands over to the
+       first child store holding data for i). *)
+
+(* A create, through store s0 of root s, of an entity i whose persisted value of f is already held by
+   another present entity NEVER returns Ok.  It returns exactly Err EDuplicate whenever none of the
+   earlier checks fails first: id non-blank / not taken / a legal key, no pre-commit veto, and the hooks
+   of the constraints registered before the unique index succeed. *)
+Theorem unique_duplicate_rejected_create : forall sch s f oc st evs s0 i sys fv sv v,
+  wf_unique_b sch s f = true -> UInv sch s f st ->
+  root_of sch s0 = s -> dup_at sch s f st i v -> new_f sch s f true sys fv None ent_empty = v ->
+  exists k, op_create sch oc (st, evs) s0 i sys fv sv = Err k /\
+    (forall evs1 stm,
+       nonempty i = true -> present sch st s i = false -> key_ok i = true ->
+       fire_cu sch oc evs s0 Created i = Ok evs1 ->
+       after_update_all sch (set_ent st s i (persist sch s0 true sys fv sv None ent_empty))
+                        (mkIctx true (oc_sys oc) s i) (before_unique f (cons_of sch s)) [] = Ok stm ->
+       k = EDuplicate).
+Proof.
+  intros sch s f oc st evs s0 i sys fv sv v Hwf. destruct (wf_unique_b_sound sch s f Hwf) as [H1 [H2 [H3 [H4 H5]]]].
+  exact (op_create_dup sch s f H1 H4 oc st evs s0 i sys fv sv v).
+Qed.
+Print Assumptions unique_duplicate_rejected_create.
+
+(* The same for an update (full or field-restricted, entered through any store of root s): never Ok;
+   exactly Err EDuplicate when the entity is found, nothing vetoes, the before-hooks (system-entity
+   check) pass and the hooks registered before the unique index succeed. *)
+Theorem unique_duplicate_rejected_update : forall sch s f oc st evs s0 i fv sv ch v,
+  wf_unique_b sch s f = true -> UInv sch s f st ->
+  root_of sch s0 = s -> dup_at sch s f st i v -> new_f sch s f false false fv ch (cur_ent s st i) = v ->
+  exists k, op_update sch oc (st, evs) s0 i fv sv ch = Err k /\
+    (forall evs1 svs stm,
+       nonempty i = true -> present sch st (upd_store sch st s0 i) i = true ->
+       fire_cu sch oc evs (upd_store sch st s0 i) Updated i = Ok evs1 ->
+       before_chain sch st false (oc_sys oc) i (chain sch (upd_store sch st s0 i)) = Ok svs ->
+       after_update_all sch (set_ent st s i (persist sch (upd_store sch st s0 i) false false fv sv ch (cur_ent s st i)))
+                        (mkIctx false (oc_sys oc) s i) (before_unique f (cons_of sch s)) (hd [] svs) = Ok stm ->
+       k = EDuplicate).
+Proof.
+  intros sch s f oc st evs s0 i fv sv ch v Hwf. destruct (wf_unique_b_sound sch s f Hwf) as [H1 [H2 [H3 [H4 H5]]]].
+  exact (op_update_dup sch s f H1 H4 H5 oc st evs s0 i fv sv ch v).
+Qed.
+Print Assumptions unique_duplicate_rejected_update.
+
+(* ... and changes nothing: a transaction whose operations reach such a create / update (after any
+   successful prefix, from any state satisfying the invariant) is rolled back - run_tx returns the state
+   it started from, commits nothing, delivers no events and reports the operation's error last. *)
+Theorem unique_duplicate_changes_nothing : forall sch s f fuel st (t : tx) pre o post st1 evs1,
+  wf_unique_b sch s f = true -> UInv sch s f st ->
+  tx_ops t = pre ++ o :: post ->
+  snd (run_ops sch fuel (mkOctx (tx_sys t) (tx_vetoes t)) (st, []) pre) = Ok (st1, evs1) ->
+  dup_op sch s f st1 o ->
+  exists rs k, run_op sch fuel (mkOctx (tx_sys t) (tx_vetoes t)) (st1, evs1) o = Err k /\
+               run_tx sch fuel st t = (rs ++ [Some k], false, st, []).
+Proof.
+  intros sch s f fuel st t pre o post st1 evs1 Hwf. destruct (wf_unique_b_sound sch s f Hwf) as [H1 [H2 [H3 [H4 H5]]]].
+  exact (dup_tx_rolled_back sch s f H1 H2 H3 H4 H5 fuel st t pre o post st1 evs1).
+Qed.
+Print Assumptions unique_duplicate_changes_nothing.
+
+(* the same in every reachable state (the invariant needs no assumption there) *)
+Theorem unique_duplicate_changes_nothing_reachable : forall sch s f fuel (txs : list tx) (t : tx) pre o post st1 evs1,
+  wf_unique_b sch s f = true ->
+  let st := run_txs sch fuel st_empty txs in
+  tx_ops t = pre ++ o :: post ->
+  snd (run_ops sch fuel (mkOctx (tx_sys t) (tx_vetoes t)) (st, []) pre) = Ok (st1, evs1) ->
+  dup_op sch s f st1 o ->
+  exists rs k, run_tx sch fuel st t = (rs ++ [Some k], false, st, []).
+Proof.
+  intros sch s f fuel txs t pre o post st1 evs1 Hwf st Hops Hpre Hd.
+  destruct (wf_unique_b_sound sch s f Hwf) as [H1 [H2 [H3 [H4 H5]]]].
+  assert (UInv sch s f st) as HU by (apply (run_txs_inv sch s f H1 H2 H3 H4 H5); apply UInv_empty).
+  destruct (dup_tx_rolled_back sch s f H1 H2 H3 H4 H5 fuel st t pre o post st1 evs1 HU Hops Hpre Hd) as [rs [k [_ Hr]]].
+  exists rs, k. exact Hr.
+Qed.
+Print Assumptions unique_duplicate_changes_nothing_reachable.
+
+(* what "the persisted value of f" is for an entity that supplies one *)
+Theorem new_f_is_supplied_value : forall sch s f cr sys fv ch e v d,
+  is_child sch s = false -> find_store sch s = Some d -> declares_field d f = true ->
+  lookup_fv fv f = Some (Some v) -> checked ch f = true -> (cr && sys = false \/ f <> isSystemF) ->
+  new_f sch s f cr sys fv ch e = v.
+Proof. intros sch s f cr sys fv ch e v d H. exact (new_f_supplied sch s f H cr sys fv ch e v d). Qed.
+Print Assumptions new_f_is_supplied_value.
+
+(* A non-nullable unique index never accepts an empty value: in every reachable state every present
+   entity of s holds a non-empty value in f. *)
+Theorem nonnull_unique_never_empty : forall sch s f fuel (txs : list tx),
+  wf_unique_b sch s f = true -> In (CUnique f false) (cons_of sch s) ->
+  let st := run_txs sch fuel st_empty txs in
+  forall i, present sch st s i = true -> nonempty (fv_bytes (get_field sch st s i f)) = true.
+Proof.
+  intros sch s f fuel txs Hwf Hnn. destruct (wf_unique_b_sound sch s f Hwf) as [H1 [H2 [H3 [H4 H5]]]].
+  exact (nonnull_unique_never_empty_lemma sch s f H1 H2 H3 H4 H5 Hnn fuel txs).
+Qed.
+Print Assumptions nonnull_unique_never_empty.
